@@ -328,8 +328,8 @@ def run(ctx):
         if kk not in seen:
             seen.add(kk)
             sel.append(b)
-    n_all = 240 if quick else 2000
-    n_api = 20 if quick else 150
+    n_all = 160 if quick else 2000
+    n_api = 12 if quick else 150
     sel = sel[:n_all]
     # API mode (gcc) for a sample; prefer chains that declare functions / variables / constants
     def api_score(b):
@@ -337,7 +337,7 @@ def run(ctx):
         return -len(kinds & {"DeclFunc", "DeclGlobal", "DeclConst", "DeclEnum", "DeclStruct"})
     api_idx = set(sorted(range(len(sel)), key=lambda i: (api_score(sel[i]), i))[:n_api])
     work = [(b, ("inl", "ool", "api") if i in api_idx else ("inl", "ool")) for i, b in enumerate(sel)]
-    nrand = 12 if quick else 100
+    nrand = 9 if quick else 100
     for i in range(nrand):
         work.append((random_chain(ctx.rng, ctx.rng.choice([2, 2, 3]), ctx.rng.randrange(2, 7)),
                      ("inl", "ool", "api") if (i % 3 == 0) else ("inl", "ool")))
